@@ -213,11 +213,11 @@ func (cc *checkCtx) run(writeBaseline bool) int {
 		rep.Obligs = keep
 		reports = append(reports, rep)
 	}
-	if len(engineErrs) > 0 {
-		for _, e := range engineErrs {
-			fmt.Println("ENGINE-ERROR: contract does not evaluate:", e)
-		}
-		return 2
+	// a clause that does not evaluate on the current source (renamed local, changed shape) is stale:
+	// its obligations are undecided, never a pass and never by itself a violation (DESIGN 2.1)
+	for _, e := range engineErrs {
+		fmt.Println("STALE-CONTRACT:", e)
+		cc.undecided = append(cc.undecided, "stale: "+e)
 	}
 	cc.reports = reports
 	// 2. select the obligations that belong to this property's run
@@ -341,7 +341,7 @@ func (cc *checkCtx) report(obs []*Obligation, reports []*FuncReport, writeBaseli
 		}
 	}
 	// undecided functions
-	var undec []string
+	undec := append([]string{}, cc.undecided...)
 	var stale []string
 	fnInfo := []interface{}{}
 	paths := 0
